@@ -97,11 +97,28 @@ def exportInto (w : World) (t : TyInfo) (outDir : Str) : World × Outcome :=
     | .error e => (w, .err e)
     | .ok p => exportTo w t p
 
-/-- `export_recursive` + `Visit::visit` (export.rs:45-87): depth-first, `seen` keyed by the
-    instantiation, non-exportable dependencies skipped, the first error stops the walk.
-    `fuel` bounds the recursion depth (the number of types suffices). Returns `none` on fuel
-    exhaustion. -/
-def exportRec (u : Universe) : Nat → World → List Nat → Str → Nat → Option (World × List Nat × Outcome)
+abbrev WalkRes := World × List Nat × Outcome
+
+/-- `T::visit_dependencies(&mut visitor)` with `Visit::visit` (export.rs:51-61): dependencies in
+    order; once an error is recorded the remaining ones are skipped; non-exportable ones are
+    skipped; otherwise `export_recursive` (passed as `recur`) is called. -/
+def visitDeps (u : Universe) (recur : World → List Nat → Nat → Option WalkRes) :
+    List Nat → World → List Nat → Option WalkRes
+  | [], w, seen => some (w, seen, .ok)
+  | d :: ds, w, seen =>
+    match u[d]? with
+    | none => none
+    | some td =>
+      if td.outputPath.isNone then visitDeps u recur ds w seen
+      else match recur w seen d with
+        | none => none
+        | some (w2, seen2, .ok) => visitDeps u recur ds w2 seen2
+        | some (w2, seen2, o) => some (w2, seen2, o)
+
+/-- `export_recursive` (export.rs:63-87): depth-first, `seen` keyed by the instantiation, the first
+    error stops the walk. `fuel` bounds the recursion depth (the number of types suffices);
+    `none` = fuel exhausted / index outside the table. -/
+def exportRec (u : Universe) : Nat → World → List Nat → Str → Nat → Option WalkRes
   | 0, _, _, _, _ => none
   | fuel + 1, w, seen, outDir, i =>
     if i ∈ seen then some (w, seen, .ok)
@@ -109,21 +126,9 @@ def exportRec (u : Universe) : Nat → World → List Nat → Str → Nat → Op
       match u[i]? with
       | none => none
       | some t =>
-        let seen := i :: seen
         match exportInto w t outDir with
-        | (w1, .ok) =>
-          -- visit_dependencies(&mut visitor)
-          t.deps.foldl (fun acc d =>
-            match acc with
-            | none => none
-            | some (w2, seen2, o) =>
-              if o ≠ .ok then some (w2, seen2, o)              -- `self.error.is_some()` → return
-              else match u[d]? with
-                | none => none
-                | some td =>
-                  if td.outputPath.isNone then some (w2, seen2, .ok)
-                  else exportRec u fuel w2 seen2 outDir d) (some (w1, seen, .ok))
-        | (w1, o) => some (w1, seen, o)
+        | (w1, .ok) => visitDeps u (fun w' s' d => exportRec u fuel w' s' outDir d) t.deps w1 (i :: seen)
+        | (w1, o) => some (w1, i :: seen, o)
 
 inductive Entry where
   | export (i : Nat)
